@@ -1,7 +1,9 @@
 #!/bin/sh
-# tools/fpall.sh <dir-with-change_k/patch.diff> <logfile>   run tools/fptest.sh over a directory of behaviour-preserving patches
+# tools/fpall.sh [dir-with-<name>/patch.diff ...] [logfile]   run tools/fptest.sh over a directory of behaviour-preserving
+# patches (default: /verif/fpcorpus, the 48 patches written by the refactoring sub-agents); every check must stay silent.
 cd /verif
-for p in "$1"/change_*/patch.diff; do
+D=${1:-/verif/fpcorpus}; L=${2:-/dev/stdout}
+for p in "$D"/*/patch.diff; do
   echo "== $p"
   tools/fptest.sh "$p" $FP_CHECKS
-done > "$2" 2>&1
+done > "$L" 2>&1
